@@ -77,6 +77,14 @@ int vf_pay_boostany(boost::any const& a);
 inline int vf_pay(std::any const& a) { return vf_pay_stdany(a); }
 inline int vf_pay(boost::any const& a) { return vf_pay_boostany(a); }
 
+// Kleene trigger type per back-end family
+#if VF_BE >= 3
+#include <boost/msm/backmp11/event_traits.hpp>
+#define VF_KLEENE std::any
+#else
+#include <boost/msm/event_traits.hpp>
+#define VF_KLEENE boost::any
+#endif
 #define VF_ENTRY(I) (100 + 4 * (I))
 #define VF_EXIT(I) (101 + 4 * (I))
 #define VF_ACT(I) (2000 + (I))
